@@ -1143,7 +1143,7 @@ func builderMain() int {
 			if nd != obs.diagRet {
 				obs.DiagsOK = false
 			}
-			obs.ManifestSame, obs.CanonSame, obs.ConcSame = true, true, true
+			obs.ManifestSame, obs.CanonSame, obs.ConcSame, obs.DirsOK = true, true, true, true
 			if bundle != nil {
 				e.inspect(bundle)
 				sha, _ := manifestOf(e.dir)
